@@ -132,6 +132,7 @@ fn kmeans_model(r: &mut Runner) {
     r.inst("f64/L2/kmeans++", |o| go::<f64, _>(o, L2Dist, KMeansInit::KMeansPlusPlus, false));
     r.inst("f64/L1/random", |o| go::<f64, _>(o, L1Dist, KMeansInit::Random, false));
     r.inst("f64/Lp(1.5)/kmeans++", |o| go::<f64, _>(o, LpDist(1.5), KMeansInit::KMeansPlusPlus, false));
+    r.inst("f64/Lp(2.3)/kmeans++", |o| go::<f64, _>(o, LpDist(2.0 + 0.1 + 0.2), KMeansInit::KMeansPlusPlus, false));
     r.inst("f64/L2/incremental", |o| go::<f64, _>(o, L2Dist, KMeansInit::Random, true));
     r.inst("f32/L2/kmeans++", |o| go::<f32, _>(o, L2Dist, KMeansInit::KMeansPlusPlus, false));
     r.inst("f32/Lp(3)/random", |o| go::<f32, _>(o, LpDist(3.0f32), KMeansInit::Random, false));
@@ -187,7 +188,7 @@ fn kmeans_param_points<F: Float, D: Distance<F> + Clone>(d: D) -> Vec<(&'static 
     vec![
         ("default", KMeans::params_with(3, rng(42), d.clone())),
         ("nondefault1", KMeans::params_with(2, rng(1), d.clone()).n_runs(3).tolerance(F::cast(0.05)).max_n_iterations(7).init_method(KMeansInit::Random)),
-        ("nondefault2", KMeans::params_with(3, rng(2), d.clone()).n_runs(1).tolerance(F::cast(1e-6)).max_n_iterations(50).init_method(KMeansInit::Precomputed(ndarray::array![[F::cast(-3.0), F::cast(-3.0)], [F::cast(0.0), F::cast(2.0)], [F::cast(2.0), F::cast(-1.0)]]))),
+        ("nondefault2", KMeans::params_with(3, rng(2), d.clone()).n_runs(1).tolerance(F::cast(1e-6)).max_n_iterations(50).init_method(KMeansInit::Precomputed(ndarray::array![[F::cast(-3.1), F::cast(-2.9)], [F::cast(0.1 + 0.2), F::cast(2.0)], [F::cast(2.2), F::cast(-1.3)]]))),
         // boundary points: smallest legal values of every integer parameter, extreme tolerances
         ("one_cluster_one_run_one_iteration", KMeans::params_with(1, rng(4), d.clone()).n_runs(1).max_n_iterations(1).tolerance(F::min_positive_value())),
         ("many_runs_huge_tolerance", KMeans::params_with(2, rng(5), d.clone()).n_runs(4).max_n_iterations(u64::MAX).tolerance(F::cast(1e30)).init_method(KMeansInit::KMeansPlusPlus)),
@@ -235,8 +236,11 @@ fn kmeans_params(r: &mut Runner) {
     for (name, p) in kmeans_param_points::<f64, _>(L2Dist) {
         r.inst(&format!("f64/L2/{}", name), |o| go(o, p));
     }
-    for (name, p) in kmeans_param_points::<f32, _>(LpDist(1.5f32)) {
-        r.inst(&format!("f32/Lp(1.5)/{}", name), |o| go(o, p));
+    for (name, p) in kmeans_param_points::<f32, _>(LpDist(1.7f32)) {
+        r.inst(&format!("f32/Lp(1.7)/{}", name), |o| go(o, p));
+    }
+    for (name, p) in kmeans_param_points::<f64, _>(LpDist(2.0 + 0.1 + 0.2)).into_iter().take(2) {
+        r.inst(&format!("f64/Lp(2.3)/{}", name), |o| go(o, p));
     }
 }
 
@@ -273,6 +277,9 @@ fn kmeans_valid_params(r: &mut Runner) {
         let obs = |v: &KmV<F, D>| kmeans_valid_obs(v, &x, &q);
         round_trip(o, &Spec::full(&obs), &v);
     }
+    for (name, p) in kmeans_param_points::<f64, _>(LpDist(2.0 + 0.1 + 0.2)).into_iter().take(2) {
+        r.inst(&format!("f64/Lp(2.3)/{}", name), |o| go(o, p));
+    }
     for (name, p) in kmeans_param_points::<f64, _>(L1Dist).into_iter().filter(|(n, _)| !n.starts_with("invalid")) {
         r.inst(&format!("f64/L1/{}", name), |o| go(o, p));
     }
@@ -300,6 +307,30 @@ fn gmm_model(r: &mut Runner) {
         let q = x.clone();
         let obs = |m: &GaussianMixtureModel<F>| gmm_obs(m, &q);
         round_trip(o, &Spec::full(&obs), &m);
+    }
+    /// three overlapping blobs, several data seeds: the fitted weights sum to one only within a
+    /// few ulp, so some of these models carry a weight sum that is off by more than one epsilon
+    fn go_overlap<F: SF>(o: &mut Out, seed: u64) {
+        let (x, _) = blobs_overlap::<F>(150, 2, 3, seed);
+        let ds = Dataset::from(x.clone());
+        // EM does not converge from every start on overlapping data: first converging start of a fixed list
+        let m = match (0..6u64).find_map(|a| GaussianMixtureModel::params_with_rng(3, rng(seed + 1000 * a)).n_runs(1).tolerance(F::cast(1e-3)).reg_covariance(F::cast(1e-4)).max_n_iterations(300).fit(&ds).ok()) {
+            Some(m) => m,
+            None => o.machinery("no converging EM start among 6"),
+        };
+        let off = (m.weights().sum() - F::one()).abs() > F::epsilon();
+        o.invariants.insert(format!("weights sum to 1 ({})", std::any::type_name::<F>()), off);
+        let q = x.clone();
+        let obs = |m: &GaussianMixtureModel<F>| {
+            let mut ob = gmm_obs(m, &q);
+            ob.f1("weights.sum", m.weights().sum());
+            ob.done()
+        };
+        round_trip(o, &Spec::full(&obs), &m);
+    }
+    for seed in 101..117u64 {
+        r.inst(&format!("f64/overlapping_blobs/seed{}", seed), |o| go_overlap::<f64>(o, seed));
+        r.inst(&format!("f32/overlapping_blobs/seed{}", seed), |o| go_overlap::<f32>(o, seed));
     }
     r.inst("f64/kmeans_init/k3", |o| go::<f64>(o, GmmInitMethod::KMeans, 3));
     r.inst("f64/random_init/k2", |o| go::<f64>(o, GmmInitMethod::Random, 2));
@@ -586,6 +617,9 @@ fn optics_params(r: &mut Runner) {
     for (name, p) in optics_points::<f64, _>(L2Dist) {
         r.inst(&format!("f64/L2/{}", name), |o| go(o, p));
     }
+    for (name, p) in optics_points::<f64, _>(LpDist(1.0f64 + 0.1 + 0.2)).into_iter().take(2) {
+        r.inst(&format!("f64/Lp(1.3)/{}", name), |o| go(o, p));
+    }
     for (name, p) in optics_points::<f32, _>(LpDist(1.5f32)) {
         r.inst(&format!("f32/Lp(1.5)/{}", name), |o| go(o, p));
     }
@@ -598,7 +632,7 @@ fn optics_valid_params(r: &mut Runner) {
         let obs = |v: &OpV<F, D>| optics_valid_obs(v, &x);
         round_trip(o, &Spec::full(&obs), &v);
     }
-    for (name, p) in optics_points::<f64, _>(LpDist(2.5f64)).into_iter().filter(|(n, _)| !n.starts_with("invalid")) {
+    for (name, p) in optics_points::<f64, _>(LpDist(2.0f64 + 0.1 + 0.2)).into_iter().filter(|(n, _)| !n.starts_with("invalid")) {
         r.inst(&format!("f64/Lp(2.5)/{}", name), |o| go(o, p));
     }
     for (name, p) in optics_points::<f32, _>(L2Dist).into_iter().filter(|(n, _)| !n.starts_with("invalid")) {
